@@ -18,7 +18,21 @@ pub fn meta() -> Meta {
 pub fn ep(c: i128, s: TimeScale) -> Epoch {
     let e = Epoch::from_duration(mk(c), s);
     pretouch(&e, c);
+    LAST_BUILT.with(|l| l.set(Some(e)));
     e
+}
+
+/// The same history diversity for an epoch that a *library constructor* returned (time of week, day of year, Julian date,
+/// calendar fields ...): called by the monitor between building the epoch and reading it.
+pub fn touch_built(e: &Epoch) {
+    pretouch(e, count_d(e.duration));
+    LAST_BUILT.with(|l| l.set(Some(*e)));
+}
+
+thread_local! {
+    /// the epoch `ep` built before this one on this thread: the partner of the two-operand touches (monitors build the left
+    /// operand of a difference / comparison first and the right one next, so this is the operand the judged call will meet)
+    static LAST_BUILT: std::cell::Cell<Option<Epoch>> = const { std::cell::Cell::new(None) };
 }
 
 /// History diversity for state keyed on the value in hand: one epoch in 32 (chosen by a hash of its count, so the same
@@ -84,8 +98,12 @@ pub fn pretouch(e: &Epoch, c: i128) {
     // "the table entry / year that matched last" tried first with a cheaper, less exact comparison)
     // (round 8: more distances - a warm start "when the previous call was close" has its own idea of close: seconds, minutes,
     // just under an hour, the same day; and the near-mirror -c - 1, the same nanoseconds in the next century)
-    let variant = (h >> 8) % 16;
+    let variant = (h >> 8) % 18;
     let tc = match variant {
+        // a "never" / "always" sentinel next to a bound of the range (the touch itself hits the bound and is outside every
+        // domain; what it leaves behind must not reach the ordinary epoch that follows)
+        16 => MAX_NS - (h >> 30) as i128 % (110 * 365 * NS_D),
+        17 => MIN_NS + (h >> 30) as i128 % (110 * 365 * NS_D),
         0 | 1 => c,
         2 | 3 => -c,
         4 => c + NS_H,
@@ -101,7 +119,7 @@ pub fn pretouch(e: &Epoch, c: i128) {
         14 => -c - 1,
         _ => c + NPC,
     };
-    if !(MIN_NS + NPC..=MAX_NS - NPC).contains(&tc) {
+    if variant < 16 && !(MIN_NS + NPC..=MAX_NS - NPC).contains(&tc) {
         return;
     }
     let e = Epoch::from_duration(mk(tc), e.time_scale);
@@ -113,14 +131,25 @@ pub fn pretouch(e: &Epoch, c: i128) {
     let _ = guard(move || {
         let a0 = if rot % 3 == 0 { (e.leap_seconds_with(true, other()), e.leap_seconds_with(false, other())) } else { (None, None) };
         let a = (a0, e.leap_seconds(false), e.leap_seconds(true), e.leap_seconds_iers(), if rot % 3 == 1 { e.leap_seconds_with(true, other()) } else { None });
-        let b = (e.to_gregorian_utc(), e.to_gregorian_tai(), e.weekday(), e.weekday_utc(), e.day_of_year(), e.year(), e.month_name());
+        // (the calendar readers loop over the years since 1900: skipped for the sentinels three million years away)
+        let b = if variant < 16 { Some((e.to_gregorian_utc(), e.to_gregorian_tai(), e.weekday(), e.weekday_utc(), e.day_of_year(), e.year(), e.month_name())) } else { None };
         let v = (e.to_unix_seconds(), e.to_mjd_utc_days(), e.to_jde_et_days(), e.to_jde_tdb_days());
         let mut k = 0i128;
         for i in 0..9 {
             let s = crate::model::scale::SCALES[(i + rot) % 9];
             k += e.to_duration_in_time_scale(s).to_parts().1 as i128;
         }
-        let f = format!("{e}").len();
+        let f = if variant < 16 { format!("{e}").len() } else { 0 };
+        // two-operand calls with the epoch built just before as the partner: a memo of "the right operand re-expressed last"
+        // is left holding the touched epoch's answer for the very pair the monitor is about to judge
+        if let Some(p) = LAST_BUILT.with(|l| l.get()) {
+            // (which direction comes last rotates: a one-entry memo keeps the last call only)
+            if rot % 2 == 0 {
+                std::hint::black_box((e - p, e == p, e.cmp(&p), e.partial_cmp(&p), e < p, e.min(p), p - e, p == e, p.cmp(&e), p.partial_cmp(&e), p < e, p.min(e)));
+            } else {
+                std::hint::black_box((p - e, p == e, p.cmp(&e), p.partial_cmp(&e), p < e, p.max(e), e - p, e == p, e.cmp(&p), e.partial_cmp(&p), e < p, e.max(p)));
+            }
+        }
         std::hint::black_box((a, b, v, k, f));
     });
 }
@@ -236,7 +265,10 @@ pub fn check(rep: &mut Rep, d: i128, s1: TimeScale, x: i128) {
             }
         }
     }
-    for s2 in UNIFORM {
+    // (the target that is asked for first rotates with the reading: "the pair requested last" - by the pre-touch, by the
+    // previous event - is then followed by the same pair or by another one, in every combination)
+    let start = (h64(&[d as u64, (d >> 64) as u64, 0x5ca1e]) % 6) as usize;
+    for s2 in (0..6).map(|i| UNIFORM[(i + start) % 6]) {
         let want = t - zero_tai_ns(s2);
         if !in_bounds(want) || !in_bounds(t) {
             continue;
@@ -420,9 +452,20 @@ pub fn run(cfg: &Cfg, rep: &mut Rep) {
     for _ in 0..nrand {
         let si = r.below(6) as usize;
         let s = UNIFORM[si];
-        let d = match r.below(10) {
+        let d = match r.below(11) {
             0..=5 => gen::rand_reading(&mut r, s, &lats[si]),
             6..=7 => gen::rand_count_within(&mut r, 101 * NPC),
+            // the first and last centuries of the range: the offsets between the scales (up to 106 years) are of the order of
+            // the distance to the bound, so the order in which an implementation adds and subtracts them matters here and only
+            // here (`check` judges a conversion whenever reading, TAI pivot and result are all representable)
+            8 => {
+                let off = r.range_i128(0, 3 * NPC);
+                if r.bool() {
+                    MIN_NS + off
+                } else {
+                    MAX_NS - off
+                }
+            }
             _ => gen::rand_count_within(&mut r, 32000 * NPC),
         };
         let x = gen::rand_count_within(&mut r, 200 * NPC);
